@@ -197,7 +197,8 @@ def modelMetaOne (rc : RunCfg) (c : Case) (mode : String) (text : List Char) (ct
     | .error (.nilQuery) => "_"
     | .error _ => "cerr"
   | "val" => modelEval rc c text ctx
-  | "seq" => modelSel rc c text ctx
+  | "seq" | "rev" => modelSel rc c text ctx
+  | "cnt" => if text == c.expr then modelEval rc c text ctx else modelSel rc c text ctx
   | "set" => sortedSet c.doc (modelSel rc c text ctx)
   | _ => "badmode"
 
@@ -274,7 +275,7 @@ def runCase (rc : RunCfg) (c : Case) : String × String :=
       let a := modelMetaOne rc c mode c.expr c.ctx
       let b := modelMetaOne rc c mode (unhexChars e2) (parseRef ctx2)
       let sp :=
-        if mode == "seq" || mode == "set" then sortedSet c.doc (specEval c c.expr c.ctx) ++ "~" ++ sortedSet c.doc (specEval c (unhexChars e2) (parseRef ctx2))
+        if mode == "seq" || mode == "set" || mode == "rev" then sortedSet c.doc (specEval c c.expr c.ctx) ++ "~" ++ sortedSet c.doc (specEval c (unhexChars e2) (parseRef ctx2))
         else if mode == "val" then specEval c c.expr c.ctx ++ "~" ++ specEval c (unhexChars e2) (parseRef ctx2)
         else "-"
       ("meta:" ++ a ++ "~" ++ b, sp)
